@@ -17,7 +17,9 @@ RULE = (
     "pre-installed / declared although pre-installed / absent; other software declared beside it; optional port listener; "
     "restart duration; node power durations) + op sequence over {start, stop, pause, resume, restart, disable, enable, fix, "
     "scan, execute, close, install, uninstall, tick, node off, node on, payload from the peer host, uninstall of / payload to "
-    "another application on the same (port, protocol)}. All sequences to depth "
+    "another application on the same (port, protocol), bare node shutdown / startup / reset requests with durations 0..3, and "
+    "- only while the node is not ON - every lifecycle verb sent to the software component itself (own request manager or "
+    "method)}. All sequences to depth "
     "3 (quick) / 4 (thorough) for three services (11 symbols: the 7 state-changing verbs, tick, payload, node off, node on) "
     "and three applications (9 symbols: execute, close, scan, install, uninstall, tick, payload, node off, node on); a sweep "
     "of every shipped type x every non-running state x listener mode followed by a payload; Hypothesis sequences of length "
@@ -33,6 +35,8 @@ ASSUMPTIONS = [
     "delivery is REQUIRED only where the dispatch is unambiguous: the addressed software is RUNNING, the only RUNNING software "
     "on its (port, protocol), its node ON with enabled interfaces, get_open_ports() lists the port, the peer reports the frame "
     "sent, and the type's payload is one frame to its own port (not nmap / arp / C2); everywhere else non-delivery is accepted",
+    "component-level calls (software.apply_request([verb]), software.start() ...) are in domain while the node is not ON; there "
+    "only 'must not become RUNNING / must not answer success for start, resume, execute' is asserted, not the full FSM",
     "node power transitions themselves belong to C12: the power ops drive the node to OFF / ON and only the software "
     "consequences are asserted; timing assertions are suspended for a transition interrupted by a power event",
     "fix is required to succeed only when health is GOOD or COMPROMISED; execute of a RUNNING application may have any status; "
@@ -97,7 +101,7 @@ def _am():
 
 def form(kind: str, name: str, verb: str) -> List:
     am = _am()
-    if verb in ("shutdown", "startup"):
+    if verb in ("shutdown", "startup", "reset"):
         return am.form_request(f"node-{verb}", {"node_name": H0})
     if kind == "service":
         return am.form_request(f"node-service-{verb}", {"node_name": H0, "service_name": name})
@@ -472,6 +476,113 @@ def _run(case, res, game, sim, node, peer, sm, spy, kind, typ, ops, base):
             return False
         return True
 
+    def power_edge(prev_ns, pre, when) -> bool:
+        """The node has just reached OFF (possibly on its way to BOOTING: reset) or ON: what must have happened to the software."""
+        nonlocal was_running_at_off, pending, m_state
+        now = node.operating_state
+        if now == prev_ns:
+            return False
+        through_off = prev_ns in (NS.ON, NS.SHUTTING_DOWN) and now in (NS.OFF, NS.BOOTING, NS.ON)
+        on_edge = now == NS.ON and prev_ns in (NS.OFF, NS.BOOTING)
+        if not (through_off or on_edge):
+            return False  # ON -> SHUTTING_DOWN, OFF -> BOOTING: nothing is documented to happen to software
+        if pending:
+            pending["clean"] = False
+        obs = state()
+        if through_off and now == NS.ON:
+            res.label("power-cycle-within-one-op")  # reset with zero durations: stopped and started again, not observable
+        elif through_off:
+            was_running_at_off = pre == "RUNNING"
+            if obs == "RUNNING":
+                res.violate(f"running-on-powered-off-node:{kind}", f"{when}: {obs} after the node reached OFF")
+            else:
+                if kind == "service":
+                    allowed = {"RUNNING": {"STOPPED"}, "STOPPED": {"STOPPED"}, "DISABLED": {"DISABLED"},
+                               "PAUSED": {"STOPPED", "PAUSED"}, "RESTARTING": {"STOPPED", "RESTARTING"},
+                               "ABSENT": {"ABSENT"}}.get(pre)
+                else:
+                    allowed = {"RUNNING": {"CLOSED"}, "CLOSED": {"CLOSED"}, "INSTALLING": {"INSTALLING", "CLOSED"},
+                               "ABSENT": {"ABSENT"}}.get(pre)
+                if allowed and obs not in allowed:
+                    res.violate(f"power-off-transition:{kind}:{pre}->{obs}", when)
+        else:
+            if kind == "service":
+                allowed = {"STOPPED": {"RUNNING"} if was_running_at_off else {"RUNNING", "STOPPED"},
+                           "DISABLED": {"DISABLED"}, "ABSENT": {"ABSENT"}}.get(pre)
+            else:
+                allowed = {"CLOSED": {"RUNNING", "CLOSED"}, "ABSENT": {"ABSENT"},
+                           "INSTALLING": {"INSTALLING", "RUNNING", "CLOSED"}}.get(pre)
+            if allowed and obs not in allowed:
+                res.violate(f"power-on-transition:{kind}:{pre}->{obs}", when)
+        if obs != pre and pending and pending["state"] != obs:
+            pending = None
+        m_state = obs
+        return True
+
+    def power_request(verb, when) -> bool:
+        nonlocal m_state, pending
+        prev_ns, pre = node.operating_state, m_state
+        try:
+            sim.apply_request(form(kind, typ, verb))
+        except Exception as e:
+            res.violate(f"raise:{verb}:{exc_sig(e)}", f"{when}: {exc_msg(e)}")
+            return False
+        if verb == "reset" and prev_ns == NS.ON and node.operating_state == NS.ON:
+            # zero durations: the node went down and came up again inside the request (software stopped and started again)
+            res.label("power-cycle-within-one-op")
+            if pending:
+                pending["clean"] = False
+                if state() != pending["state"]:
+                    pending = None
+            m_state = state()
+        elif not power_edge(prev_ns, pre, when) and state() != pre:
+            res.violate(f"power-request-changed-software-state:{kind}:{pre}->{state()}", f"{when}: node {node.operating_state.name}")
+            m_state = state()
+        return True
+
+    def tick_op(when) -> bool:
+        nonlocal pending, m_state
+        prev_ns, on_before = node.operating_state, node_on()
+        if not do_tick(when):
+            return False
+        if power_edge(prev_ns, m_state, when):
+            return True
+        obs = state()
+        if pending and m_state == pending["state"]:
+            if not (on_before and node_on()):
+                pending["clean"] = False
+            pending["ticks"] += 1
+            lo, hi = band(pending["d"])
+            if obs == "RUNNING":
+                if pending["clean"]:
+                    t = pending["ticks"]
+                    if t < lo or t > hi:
+                        res.violate(f"{pending['what']}-duration-out-of-band",
+                                    f"{when}: {pending['what']} with duration {pending['d']} completed after {t} ticks, accepted {lo}..{hi}")
+                    base = pending["base"]
+                    if base is not None and base != t:
+                        res.violate(f"{pending['what']}-duration-depends-on-interleaving",
+                                    f"{when}: completed after {t} ticks, interference-free run of the same tree needs {base}")
+                    res.label(f"timed-{pending['what']}-completed")
+                pending = None
+            elif obs == m_state:
+                if pending["clean"] and pending["ticks"] >= hi:
+                    res.violate(f"{pending['what']}-overdue:{typ}",
+                                f"{when}: still {obs} after {pending['ticks']} ticks with duration {pending['d']}")
+                    pending["clean"] = False
+            else:
+                res.violate(f"tick-changed-state:{kind}:{m_state}->{obs}", when)
+                pending = None
+        elif obs != m_state:
+            res.violate(f"tick-changed-state:{kind}:{m_state}->{obs}", when)
+        m_state = obs
+        return True
+
+    def running_names():
+        return {n for n, v in sm.software.items() if v.operating_state.name == "RUNNING"}
+
+    running_prev = running_names()
+
     for i, op in enumerate(ops):
         k = op[0]
         when = f"op#{i} {op} [{kind} {typ}, model {m_state}]"
@@ -482,89 +593,64 @@ def _run(case, res, game, sim, node, peer, sm, spy, kind, typ, ops, base):
             nontrivial = True
 
         if k == "tick":
-            on_before = node_on()
-            if not do_tick(when):
+            if not tick_op(when):
                 return
-            obs = state()
-            if pending and m_state == pending["state"]:
-                if not (on_before and node_on()):
-                    pending["clean"] = False
-                pending["ticks"] += 1
-                lo, hi = band(pending["d"])
-                if obs == "RUNNING":
-                    if pending["clean"]:
-                        t = pending["ticks"]
-                        if t < lo or t > hi:
-                            res.violate(f"{pending['what']}-duration-out-of-band",
-                                        f"{when}: {pending['what']} with duration {pending['d']} completed after {t} ticks, accepted {lo}..{hi}")
-                        base = pending["base"]
-                        if base is not None and base != t:
-                            res.violate(f"{pending['what']}-duration-depends-on-interleaving",
-                                        f"{when}: completed after {t} ticks, interference-free run of the same tree needs {base}")
-                        res.label(f"timed-{pending['what']}-completed")
-                    pending = None
-                elif obs == m_state:
-                    if pending["clean"] and pending["ticks"] >= hi:
-                        res.violate(f"{pending['what']}-overdue:{typ}",
-                                    f"{when}: still {obs} after {pending['ticks']} ticks with duration {pending['d']}")
-                        pending["clean"] = False
-                else:
-                    res.violate(f"tick-changed-state:{kind}:{m_state}->{obs}", when)
-                    pending = None
-            elif obs != m_state:
-                res.violate(f"tick-changed-state:{kind}:{m_state}->{obs}", when)
-            m_state = obs
 
         elif k in ("node_off", "node_on"):
             want_off = k == "node_off"
             if (want_off and node.operating_state != NS.ON) or (not want_off and node.operating_state != NS.OFF):
                 res.label("power-op-skipped")
                 continue
-            pre = m_state
-            try:
-                r = sim.apply_request(form(kind, typ, "shutdown" if want_off else "startup"))
-            except Exception as e:
-                res.violate(f"raise:{k}:{exc_sig(e)}", f"{when}: {exc_msg(e)}")
+            if not power_request("shutdown" if want_off else "startup", when):
                 return
             target = NS.OFF if want_off else NS.ON
             for _ in range(int(case.get("pd", 0)) + 3):
                 if node.operating_state == target:
                     break
-                if not do_tick(when):
+                if not tick_op(when):
                     return
-            if pending:
-                pending["clean"] = False
             if node.operating_state != target:
                 res.label("power-op-incomplete")  # C12's business
-                m_state = state()
+
+        elif k in ("shutdown", "startup", "reset"):
+            # the bare node request: with durations >= 1 the following ops meet the node in SHUTTING_DOWN / BOOTING
+            if not power_request(k, when):
+                return
+            if not node_on():
+                res.label(f"node-left-in:{node.operating_state.name}")
+
+        elif k == "direct":
+            # a lifecycle verb sent to the software component itself (its own request manager, or the method) while the
+            # node is not ON: the node-level routes are closed then, the component is not
+            verb, how = op[1], op[2]
+            s_ = cur()
+            if node_on() or s_ is None or (how == "method" and not callable(getattr(s_, verb, None))):
+                res.label("direct-op-skipped")
                 continue
+            nontrivial = True
+            pre, ns = m_state, node.operating_state.name
+            ok = False
+            try:
+                if how == "request":
+                    ok = s_.apply_request([verb]).status == "success"
+                else:
+                    ok = getattr(s_, verb)() is True
+            except Exception as e:
+                res.violate(f"raise:direct-{verb}:{exc_sig(e)}", f"{when}: {exc_msg(e)}")
+                return
             obs = state()
-            if want_off:
-                was_running_at_off = pre == "RUNNING"
-                if obs == "RUNNING":
-                    res.violate(f"running-on-powered-off-node:{kind}", f"{when}: {obs} after the node reached OFF")
-                elif kind == "service":
-                    allowed = {"RUNNING": {"STOPPED"}, "STOPPED": {"STOPPED"}, "DISABLED": {"DISABLED"},
-                               "PAUSED": {"STOPPED", "PAUSED"}, "RESTARTING": {"STOPPED", "RESTARTING"},
-                               "ABSENT": {"ABSENT"}}.get(pre)
-                    if allowed and obs not in allowed:
-                        res.violate(f"power-off-transition:{kind}:{pre}->{obs}", when)
-                else:
-                    allowed = {"RUNNING": {"CLOSED"}, "CLOSED": {"CLOSED"}, "INSTALLING": {"INSTALLING", "CLOSED"},
-                               "ABSENT": {"ABSENT"}}.get(pre)
-                    if allowed and obs not in allowed:
-                        res.violate(f"power-off-transition:{kind}:{pre}->{obs}", when)
-            else:
-                if kind == "service":
-                    allowed = {"STOPPED": {"RUNNING"} if was_running_at_off else {"RUNNING", "STOPPED"},
-                               "DISABLED": {"DISABLED"}, "ABSENT": {"ABSENT"}}.get(pre)
-                else:
-                    allowed = {"CLOSED": {"RUNNING", "CLOSED"}, "ABSENT": {"ABSENT"},
-                               "INSTALLING": {"INSTALLING", "RUNNING", "CLOSED"}}.get(pre)
-                if allowed and obs not in allowed:
-                    res.violate(f"power-on-transition:{kind}:{pre}->{obs}", when)
-            if obs != pre and pending and pending["state"] != obs:
-                pending = None
+            res.label(f"direct-op-on:{ns}")
+            if obs == "RUNNING" and pre != "RUNNING":
+                res.violate(f"became-running-on-node-not-on:{kind}:{verb}:{ns}",
+                            f"{when}: {how} {verb} on the {pre} {typ} while the node is {ns}: now RUNNING (accepted={ok})")
+            elif ok and how == "request" and verb in ("start", "resume", "execute"):  # (some run() methods return True always)
+                res.violate(f"accepted-on-node-not-on:{kind}:{verb}:{ns}",
+                            f"{when}: {how} {verb} answered success while the node is {ns} ({pre} -> {obs})")
+            if pending:
+                pending["clean"] = False
+                if obs != pending["state"]:
+                    pending = None
+            was_running_at_off = False
             m_state = obs
 
         elif k in ("payload", "payload_other"):
@@ -788,6 +874,13 @@ def _run(case, res, game, sim, node, peer, sm, spy, kind, typ, ops, base):
             raise ValueError(op)
 
         # consequences after every op
+        running_now = running_names()
+        if k == "direct":
+            running_prev = running_prev | ({typ} & running_now)  # the target of a direct op is judged by the direct clause
+        if node.operating_state != NS.ON and running_now - running_prev:
+            res.violate(f"software-became-running-on-node-not-on:{node.operating_state.name}",
+                        f"after {when}: {sorted(running_now - running_prev)} became RUNNING while the node is {node.operating_state.name}")
+        running_prev = running_now
         check_registries(node, res, f"after {when}", dup_at_build)
         s = cur()
         if s is not None and s.operating_state.name != "RUNNING":
@@ -827,8 +920,17 @@ def _run(case, res, game, sim, node, peer, sm, spy, kind, typ, ops, base):
 # generators
 
 
+def direct_ops(kind: str) -> List:
+    if kind == "service":
+        return [["direct", v, how] for v in SERVICE_VERBS for how in ("request", "method")]
+    return [["direct", v, "request"] for v in ("execute", "close", "fix", "scan")] + \
+           [["direct", v, "method"] for v in ("run", "close", "fix", "scan")]
+
+
 def ops_strategy(kind: str, max_len: int, typ: Optional[str] = None):
     common = [st.just(["tick"])] * 3 + [st.just(["node_off"]), st.just(["node_on"]), st.just(["payload"]), st.just(["payload"])]
+    common = common + [st.just(["shutdown"]), st.just(["startup"]), st.just(["reset"]),
+                       st.sampled_from(direct_ops(kind)), st.sampled_from(direct_ops(kind))]
     others = [a for a in ("web-browser", "database-client", "dos-bot") if a != typ]
     if PARTNER.get(typ) in others:  # prefer the application that shares the target's port
         others = others + [PARTNER[typ]] * 3
@@ -864,7 +966,7 @@ def case_strategy(draw, max_len: int = 30):
         "extra": extra,
         "listener": draw(st.sampled_from([False, False, "c2", "port"])),
         "rd": draw(st.sampled_from([None, 0, 1, 2, 3])) if kind == "service" else None,
-        "pd": draw(st.sampled_from([0, 0, 2])),
+        "pd": draw(st.sampled_from([0, 0, 1, 2, 3])),
         "ops": draw(ops_strategy(kind, max_len, typ)),
     }
 
@@ -953,6 +1055,28 @@ def shared_port_cases():
                    "rd": 1 if kind == "service" else None, "pd": 0, "ops": [list(o) for o in ops]}
 
 
+def power_transition_cases():
+    """Every type x power durations 1..3 x state the software is left in: all lifecycle verbs sent to the component itself
+    while the node is SHUTTING_DOWN, while it is OFF and while it is BOOTING (also after a reset), then back to ON."""
+    for kind, types in (("service", SERVICES), ("application", APPS)):
+        for typ in types:
+            system = typ in SYSTEM_SERVICES or typ in SYSTEM_APPS
+            if kind == "service":
+                preps = [[], [["req", "stop"]], [["req", "pause"]], [["req", "disable"]]]
+            else:
+                preps = [[], [["req", "close"]], [["uninstall"], ["install"]]]
+            d_ops = direct_ops(kind)
+            for pd in (1, 2, 3):
+                for n, prep in enumerate(preps):
+                    first = ["reset"] if (n + pd) % 3 == 0 else ["shutdown"]
+                    ops = prep + [first] + d_ops + [["payload"]] + [["tick"]] * (pd + 1)  # d or d+1 ticks to OFF: both readings
+                    if first == ["shutdown"]:
+                        ops += d_ops[::2] + [["startup"]]       # node OFF, then BOOTING
+                    ops += d_ops + [["payload"]] + [["tick"]] * (pd + 1) + [["payload"]]
+                    yield {"kind": kind, "type": typ, "declare": not system, "extra": [], "listener": False,
+                           "rd": 1 if kind == "service" else None, "pd": pd, "ops": [list(o) for o in ops]}
+
+
 def interleave_cases():
     """A timed transition with one unrelated op interleaved at each position (completion tick vs interference-free baseline)."""
     for typ in SERVICES:
@@ -1005,6 +1129,7 @@ def worker(ctx: Ctx):
     enum_run(ctx, tag(state_sweep_cases()), run_case)
     enum_run(ctx, tag(interleave_cases()), run_case)
     enum_run(ctx, tag(shared_port_cases()), run_case)
+    enum_run(ctx, tag(power_transition_cases()), run_case)
     enum_run(ctx, tag(exhaustive_cases(depth)), run_case)
     ctx.extra["exhaustive"] = True
     ctx.extra["exhaustive_domain"] = (
